@@ -2,6 +2,7 @@ package openapi3
 
 import (
 	"context"
+	"net/url"
 	"path"
 	"strings"
 )
@@ -45,6 +46,9 @@ func DefaultRefNameResolver(doc *T, ref ComponentRef) string {
 		nameInRoot = strings.TrimPrefix(nameInRoot, "#")
 
 		rootCompURI := copyURI(doc.url)
+		if rootCompURI == nil { // document loaded without a location
+			rootCompURI = new(url.URL)
+		}
 		rootCompURI.Fragment = nameInRoot
 		name = rootCompURI
 	}
@@ -78,6 +82,9 @@ func DefaultRefNameResolver(doc *T, ref ComponentRef) string {
 
 				if p, found := cutDirectories(filePath, commonDir); found {
 					filePath = p
+					break
+				}
+				if commonDir == "/" { // path.Dir("/") is "/": nothing left to try
 					break
 				}
 
@@ -370,7 +377,13 @@ func (doc *T) derefSchema(s *Schema, refNameResolver RefNameResolver, parentIsEx
 func (doc *T) derefHeaders(hs Headers, refNameResolver RefNameResolver, parentIsExternal bool) {
 	for _, name := range componentNames(hs) {
 		h := hs[name]
+		if h == nil {
+			continue
+		}
 		isExternal := doc.addHeaderToSpec(h, refNameResolver, parentIsExternal)
+		if h.Value == nil {
+			continue
+		}
 		if doc.isVisitedHeader(h.Value) {
 			continue
 		}
@@ -388,6 +401,9 @@ func (doc *T) derefExamples(es Examples, refNameResolver RefNameResolver, parent
 func (doc *T) derefContent(c Content, refNameResolver RefNameResolver, parentIsExternal bool) {
 	for _, name := range componentNames(c) {
 		mediatype := c[name]
+		if mediatype == nil {
+			continue
+		}
 		isExternal := doc.addSchemaToSpec(mediatype.Schema, refNameResolver, parentIsExternal)
 		if mediatype.Schema != nil {
 			doc.derefSchema(mediatype.Schema.Value, refNameResolver, isExternal || parentIsExternal)
@@ -395,6 +411,9 @@ func (doc *T) derefContent(c Content, refNameResolver RefNameResolver, parentIsE
 		doc.derefExamples(mediatype.Examples, refNameResolver, parentIsExternal)
 		for _, name := range componentNames(mediatype.Encoding) {
 			e := mediatype.Encoding[name]
+			if e == nil {
+				continue
+			}
 			doc.derefHeaders(e.Headers, refNameResolver, parentIsExternal)
 		}
 	}
